@@ -45,6 +45,8 @@ class Mirror:
     def enc_val(self, v):
         if self.hp:
             import sympy
+            if isinstance(v, int):
+                return f"{v}/1"
             v = sympy.nsimplify(v) if not hasattr(v, "is_Rational") else v
             if not v.is_Rational:
                 raise ValueError("non-rational HP amount")
@@ -178,6 +180,8 @@ class Mirror:
         if self.hp:
             import sympy
             c = sympy.Rational(self.r.randint(1, 1000), self.r.choice([1, 3, 8]))   # operators do not re-read the constant
+            if c.q == 1 and self.r.random() < 0.7:
+                c = int(c)          # a plain Python int must keep the arithmetic exact as well
         else:
             c = self.r.choice([2.0, 0.5, 3.7e10, 1e-9, self.r.uniform(0.1, 9.9)])
         self.log.append(f"h{d} = h{a} {'/' if div else '*'} {c!r}")
